@@ -369,3 +369,33 @@ Print Assumptions C03_tie_machine_close_while_running.
 Print Assumptions C03_tie_machine_close_wait_run_task.
 Print Assumptions C03_tie_machine_close_after.
 Print Assumptions C03_tie_machine_close_hook_order.
+
+(** ---- stage 2: the whole close path from the two regenerated sources together (Life/MachineImpTie.v) *)
+From NL Require Life.MachineImpTie.
+
+(** from the moment Imp.aclose holds the lock: pubsub.close(); the wait for the run iff the state is `running`
+    (AttributeError if no run was ever started); the trigger `close` (script of Gen/FsmConfig.v + Gen/MachineWiring.v);
+    pubsub.close() again; release of the lock; Continuous.close() (tail of the regenerated Nextline.close) -- all states
+    but Created (unreachable: Nextline.close starts first) *)
+Theorem C03_tie_machine_imp_close : forall s t, st_fsm s <> Created ->
+  enter_close s t = MachineImpTie.imp_run "aclose"%string t CClose s.
+Proof. exact MachineImpTie.imp_run_aclose. Qed.
+
+Theorem C03_tie_machine_imp_close_prologue : forall s t,
+  enter_close s t =
+  match MachineImpTie.orun t CClose (MachineImpTie.imp_pre "aclose"%string) s with
+  | (s1, MachineImpTie.ODone) => close_trigger s1 t
+  | (s1, MachineImpTie.OPark p _ _) => set_pc s1 t CClose p
+  | (s1, MachineImpTie.ORaise x) => MachineTie.raise_out s1 t CClose x
+  | (s1, MachineImpTie.OStuck) => s1
+  end.
+Proof. exact MachineImpTie.imp_close_prologue. Qed.
+
+(** the epilogue of close that stage 1 copied from the model is: second pubsub.close(), release, Continuous.close(), return *)
+Theorem C03_tie_machine_imp_close_epilogue : forall s t c,
+  MachineTie.epilogue t c FsmConfig.TClose s = MachineImpTie.derived_epilogue "aclose"%string t c s.
+Proof. exact MachineImpTie.imp_epilogue_aclose. Qed.
+
+Print Assumptions C03_tie_machine_imp_close.
+Print Assumptions C03_tie_machine_imp_close_prologue.
+Print Assumptions C03_tie_machine_imp_close_epilogue.
